@@ -256,6 +256,53 @@ def emplace (c : Cfg) (s : RVec) (index : Nat) (v : Val) : RVec :=
   if index < reconEnd then s.reconstruct c index v
   else { (s.constructIn index v) with cons := s.cons + 1 }
 
+/-! #### arguments that alias an element of the vector itself
+
+`v.push_back(v[j])`, `v.insert(pos, n, v[j])`, `v.emplace(pos, v[j])`: the argument is a
+*reference* to cell `j`, and the code reads it only after `reserve` / the shifting loops have
+run.  (`std::vector` is required to cope with this; `ReusableVector` is not written to — known
+finding `oracle:contents:self-aliasing-argument`.) -/
+
+/-- the value a reference to cell `j` denotes right now, and 1 if that cell holds no object -/
+def readCell (s : RVec) (j : Nat) : Val × Nat :=
+  match s.slots[j]? with
+  | some (.live v) => (v, 0)
+  | _ => (dflt, 1)
+
+/-- `push_back(v[j])` / `emplace_back(v[j])` -/
+def emplaceBackSelf (c : Cfg) (s : RVec) (j : Nat) : RVec :=
+  let (v0, b0) := s.readCell j
+  if s.size == s.cap then
+    -- `reserve` has moved the element out of the old buffer and destroyed it before the
+    -- argument is read: what is read is the moved-from residue of a destroyed object
+    let t := s.emplaceBack c (c.mvC v0)
+    { t with g := { t.g with bad := t.g.bad + b0 + 1 } }
+  else
+    let t := s.emplaceBack c v0
+    { t with g := { t.g with bad := t.g.bad + b0 } }
+
+/-- `insert(pos, n, v[j])` -/
+def insertNSelf (c : Cfg) (s : RVec) (index n j : Nat) : RVec :=
+  if n == 0 then s
+  else
+    let (v0, b0) := s.readCell j
+    if s.size + n > s.cap then
+      -- buffer replaced: every one of the `n` reads hits the destroyed, moved-from old element
+      let t := s.insertN c index n (c.mvC v0)
+      { t with g := { t.g with bad := t.g.bad + b0 + n } }
+    else
+      -- same buffer: the reference is read after `prepare_for_insert` has shifted the elements
+      let (p, reconEnd) := s.prepareForInsert c index n
+      let (v, b) := p.readCell j
+      let t := consFrom (reconFrom c p index (List.replicate (reconEnd - index) v)) reconEnd
+                 (List.replicate (index + n - reconEnd) v)
+      -- destroy + construct of cell `j` from itself reads the object it has just destroyed
+      let self := if c.rebuild && decide (index ≤ j) && decide (j < reconEnd) then 1 else 0
+      { t with g := { t.g with bad := t.g.bad + b * n + self } }
+
+/-- `emplace(pos, v[j])` / `insert(pos, v[j])`: the one-element case of the above -/
+def emplaceSelf (c : Cfg) (s : RVec) (index j : Nat) : RVec := s.insertNSelf c index 1 j
+
 /-- `erase(first, last)` (precondition `first ≤ last ≤ _size`) -/
 def erase (c : Cfg) (s : RVec) (first last : Nat) : RVec :=
   if first == last then s
@@ -367,6 +414,29 @@ def RVec.apply (c : Cfg) (s : RVec) : Op → RVec
   | .reserve n => s.reserve c n
   | .clear => s.clear
   | .setAt i v => s.setAt i v
+
+/-- operations whose argument is a reference to an element of the vector itself -/
+inductive AOp
+  | pushBackSelf (j : Nat)
+  | insertNSelf (i n j : Nat)
+  | emplaceSelf (i j : Nat)
+  deriving Repr, DecidableEq
+
+def AOp.pre (n : Nat) : AOp → Bool
+  | .pushBackSelf j => j < n
+  | .insertNSelf i _ j => i ≤ n && j < n
+  | .emplaceSelf i j => i ≤ n && j < n
+
+def RVec.applyAlias (c : Cfg) (s : RVec) : AOp → RVec
+  | .pushBackSelf j => s.emplaceBackSelf c j
+  | .insertNSelf i n j => s.insertNSelf c i n j
+  | .emplaceSelf i j => s.emplaceSelf c i j
+
+/-- `std::vector` semantics: the argument denotes the element's value at the time of the call -/
+def listApplyAlias (xs : List Val) : AOp → List Val
+  | .pushBackSelf j => match xs[j]? with | some v => xs ++ [v] | none => xs
+  | .insertNSelf i n j => match xs[j]? with | some v => xs.take i ++ List.replicate n v ++ xs.drop i | none => xs
+  | .emplaceSelf i j => match xs[j]? with | some v => xs.take i ++ [v] ++ xs.drop i | none => xs
 
 /-- a call whose precondition does not hold is not made (undefined behaviour in C++ for
 `std::vector` as well); the harness answers `bad-op` -/
